@@ -81,8 +81,8 @@ def oracle(case, deb, obs, hist, fut, results, problems, kw=None, ref_deb=None):
     for label, r in results:
         if errs:  # a location returns the wrong length: every run must raise, none may return an array
             if r[0] == "ok":
-                problems.append((f"{label}: an array was returned although location {sorted(errs)[0]} cannot be written "
-                                 f"({type(errs[sorted(errs)[0]]).__name__})", case))
+                problems.append((f"{label}: an array was returned although apply_location on location {sorted(errs)[0]} alone raises / returns an unusable "
+                                 f"result ({type(errs[sorted(errs)[0]]).__name__}) and failsafe is off", case))
             continue
         if r[0] != "ok":
             problems.append((f"{label}: apply raised {r[1]}: {r[2]} although every location returns a series", case))
@@ -240,6 +240,37 @@ def run(tier, res, force_search=False):
             check_state(case, deb, snap, obs, hist, fut, problems)
             res.count(("real", name, nx, ny, To, Th, Tf, str(np.dtype(dtype))), True, sample=case if rep == 0 and name == "QuantileMapping" else None)
 
+    # ---- cells with a few isolated missing / non-finite time steps: the grid run must hand them to apply_location like any other cell
+    #      (NaN-tolerant debiasers pass them through point-wise; for the others the location raises and so must apply)
+    miss_names = ["LinearScaling", "DeltaChange", "probe/deb", "probe/dc"] + (rng.sample([n for n in debs if n not in ("LinearScaling", "DeltaChange")], 2)
+                                                                              if tier == "quick" else [n for n in debs if n not in ("LinearScaling", "DeltaChange")])
+    for name in miss_names:
+        for bad in ((np.nan,) if tier == "quick" else (np.nan, np.inf)):
+            nprs = np.random.RandomState(rng.randint(0, 2**31 - 1))
+            nx, ny = rng.choice([(2, 2), (1, 3), (2, 3)])
+            if name.startswith("probe/"):
+                kind = name.split("/")[1]
+                mk = (lambda kind=kind: G.make(kind))
+                To, Th, Tf = rng.randint(3, 6), rng.randint(3, 6), rng.randint(3, 6)
+                obs, hist, fut = (G.rand_data(nprs, T, nx, ny, np.float64) for T in (To, Th, Tf))
+            else:
+                kind = "dc" if name == "DeltaChange" else "deb"
+                mk = debs[name]
+                To, Th, Tf = rng.randint(30, 50), rng.randint(30, 50), rng.randint(30, 50)
+                obs, hist, fut = G.tas_grid(nprs, To, nx, ny, 283), G.tas_grid(nprs, Th, nx, ny, 285), G.tas_grid(nprs, Tf, nx, ny, 287)
+            cells = [(i, j) for i in range(nx) for j in range(ny)]
+            rng.shuffle(cells)
+            planted = []
+            for arr, aname, c, cnt in ((fut, "cm_future", cells[0], 2), (obs, "obs", cells[1], 1), (hist, "cm_hist", cells[2], 1)):
+                for t in rng.sample(range(1, arr.shape[0]), cnt):  # never the first step (the probes read their marker there)
+                    arr[t, c[0], c[1]] = bad
+                planted.append(f"{cnt}x {bad} in {aname} at {c}")
+            case = dict(kind=kind, what=("real/" + name) if not name.startswith("probe/") else name, nx=nx, ny=ny, To=To, Th=Th, Tf=Tf, dtype="float64",
+                        planted=planted, seed=C.seed(), nprocs=[2])
+            rs = [("serial", G.run_apply(mk(), obs, hist, fut)), ("parallel/2", G.run_apply(mk(), obs, hist, fut, parallel=True, nproc=2))]
+            oracle(case, mk(), obs, hist, fut, rs, problems, ref_deb=mk)
+            res.count(("isolated-missing", name, str(bad), nx, ny, To, Th, Tf), True, sample=case if name == "LinearScaling" else None)
+
     # ---- a degenerate FIRST cell (constant model series: the parametric fit of ISIMIP step 6 fails its KS test there) must not change how the
     #      later cells are treated: every cell = the cell alone on a fresh instance, serial = parallel, instance attributes unchanged by apply
     import datetime
@@ -299,8 +330,8 @@ def run(tier, res, force_search=False):
     #      serial (views of the caller's arrays) = parallel (pickled copies) = per-location result on independent copies
     alias_names = list(debs) + ["pr/ScaledDistributionMapping", "pr/QuantileDeltaMapping"]
     if tier == "quick" and not (force_search or not lean_ok or mismatches):
-        alias_names = ["ScaledDistributionMapping", "pr/ScaledDistributionMapping", "pr/QuantileDeltaMapping", "ISIMIP", "DeltaChange", "CDFt"] + rng.sample(
-            ["LinearScaling", "QuantileMapping", "ECDFM", "QuantileDeltaMapping"], 1)
+        alias_names = ["ScaledDistributionMapping", "pr/ScaledDistributionMapping", "pr/QuantileDeltaMapping", "ECDFM", "QuantileMapping", "DeltaChange"] + rng.sample(
+            ["LinearScaling", "ISIMIP", "CDFt", "QuantileDeltaMapping"], 1)
     for name in alias_names:
         mk = allmk[name]
         nprs = np.random.RandomState(rng.randint(0, 2**31 - 1))
@@ -310,15 +341,32 @@ def run(tier, res, force_search=False):
             o0, h0, f0 = G.pr_grid(nprs, T, nx, ny, 0.8, 6), G.pr_grid(nprs, T, nx, ny, 0.9, 8), G.pr_grid(nprs, T, nx, ny, 0.9, 10)
         else:
             o0, h0, f0 = G.tas_grid(nprs, T, nx, ny, 283), G.tas_grid(nprs, T, nx, ny, 285), G.tas_grid(nprs, T, nx, ny, 287)
-        for alias in ("cm_future is cm_hist", "cm_hist is obs"):
-            def args():
-                o, h, f = o0.copy(), h0.copy(), f0.copy()
-                return (o, h, h) if alias == "cm_future is cm_hist" else (o, o, f)
+        n0 = rng.randint(8, 20)
+        for alias in G.ALIASES:
+            # logical values consistent with the memory relation (overlaps agree), then fresh arrays with that relation for every run
+            o1, h1, f1 = o0.copy(), h0.copy(), f0.copy()
+            if alias == "cm_hist and cm_future are overlapping slices of one array":
+                f1 = np.concatenate([h1[n0:], f0[: n0 + 7]])           # cm_hist = cm[:T], cm_future = cm[n0:]
+            elif alias == "cm_hist is a slice of cm_future":
+                f1 = np.concatenate([h1, f0[:n0]])                     # cm_future = the whole run, cm_hist = its first part
+            elif alias == "obs and cm_hist are overlapping slices of one array":
+                h1 = np.concatenate([o1[n0:], h0[: n0 + 3]])
+            elif alias == "cm_future is cm_hist":
+                f1 = h1
+            elif alias == "cm_hist is obs":
+                h1 = o1
 
-            ref_args = args()
-            case = dict(kind="dc" if name == "DeltaChange" else "deb", what="real/" + name, alias=alias, nx=nx, ny=ny, To=T, Th=T, Tf=T,
-                        dtype="float64", seed=C.seed(), nprocs=[2])
-            _, errs = G.stacked(mk, *ref_args, T, np.dtype(float))
+            def args():
+                return G.alias_args(alias, o1, h1, f1, n0)
+
+            a_ = args()
+            if not (np.array_equal(a_[0], o1) and np.array_equal(a_[1], h1) and np.array_equal(a_[2], f1)):
+                raise AssertionError("alias construction changed the logical values")
+            ref_args = (o1.copy(), h1.copy(), f1.copy())
+            out_T = o1.shape[0] if name == "DeltaChange" else f1.shape[0]
+            case = dict(kind="dc" if name == "DeltaChange" else "deb", what="real/" + name, alias=alias, alias_n0=n0, nx=nx, ny=ny,
+                        To=int(o1.shape[0]), Th=int(h1.shape[0]), Tf=int(f1.shape[0]), dtype="float64", seed=C.seed(), nprocs=[2])
+            _, errs = G.stacked(mk, *ref_args, out_T, np.dtype(float))
             if errs:
                 res.notes.append(f"{name} / {alias}: location {sorted(errs)[0]} raises {type(errs[sorted(errs)[0]]).__name__} — skipped")
                 continue
@@ -479,10 +527,8 @@ def replay(data):
     obs, hist, fut = G.unpack(fi)
     if fi.get("layouts"):
         obs, hist, fut = (G.relayout(a, lay) for a, lay in zip((obs, hist, fut), fi["layouts"]))
-    if fi.get("alias") == "cm_future is cm_hist":
-        fut = hist
-    elif fi.get("alias") == "cm_hist is obs":
-        hist = obs
+    if fi.get("alias"):
+        obs, hist, fut = G.alias_args(fi["alias"], obs, hist, fut, fi.get("alias_n0", 0))
     deb = G.debiaser_for(fi)
     kw = fi.get("kwargs") or {}
     if fi.get("starts"):
